@@ -213,12 +213,13 @@ theorem get_data_geometry (d : ImageData) (h : Header) (ps : List (List UInt8))
   getData_geometry d h ps hg
 
 /-- Why the plane count matters (the behaviour that was repaired): four 16-byte planes
-stored in a 3-channel 4×4 document — 64 bytes — cannot be read back with ZIP, and are
-silently cut with RAW. -/
+stored in a 3-channel 4×4 document — 64 bytes — cannot be read back with ZIP (`ValueError`: the bounded
+inflate of repo 72f34ff stops at the 48 bytes the header announces; it was an `AssertionError` after a full
+inflate before), and are silently cut with RAW. -/
 theorem four_planes_in_three_channels :
     let h : Header := { cmode := .rgb, channels := 3, depth := 8, width := 4, height := 4 }
     let planes := List.replicate 4 (List.replicate 16 (0 : UInt8))
-    getData (setData .zip planes h) h = .error .assertionError ∧
+    getData (setData .zip planes h) h = .error .valueError ∧
     getData (setData .raw planes h) h = .ok (List.replicate 3 (List.replicate 16 0)) := by decide
 
 /-! ### which plane receives what (decision table of `_merged_planes`) -/
